@@ -125,6 +125,8 @@ pub struct Hub {
     pub wakers: Vec<Waker>,
     // phase tracking
     pub in_check: bool,
+    /// the harness itself (as the embedder) holds one of the shared locks right now
+    pub embedder_lock: bool,
     pub backoffs_in_check: u32,
     pub jitters: Vec<i128>,
     pub cup_sign: Option<(u64, usize)>,        // key id, signing key index (for authentic responses)
@@ -173,7 +175,7 @@ pub type H = Arc<Mutex<Hub>>;
 impl Hub {
     pub fn new(wall: i128, mono: i128) -> Hub {
         Hub { trace: vec![], wall, mono, env: UnitEnv::default(), pending: BTreeMap::new(), committed: BTreeMap::new(),
-            released: BTreeSet::new(), next_gate: 0, http_waiting: None, timers: vec![], wakers: vec![], in_check: false,
+            released: BTreeSet::new(), next_gate: 0, http_waiting: None, timers: vec![], wakers: vec![], in_check: false, embedder_lock: false,
             backoffs_in_check: 0, jitters: vec![], cup_sign: None, last_uc_request: None, last_etag_sig: None, last_resp_body: None,
             old_etags: vec![], boundary: None, dropped_timers: vec![], reboot_phase: false, keys: vec![], units: VecDeque::new(), boundaries: vec![], jit_log: vec![], during_done: false, http_seen: 0, during_log: vec![], mock: None }
     }
@@ -343,6 +345,25 @@ impl Timer for HTimer {
 // ---------------------------------------------------------------------------------------------
 // policy
 
+thread_local! {
+    /// the two locks the embedder shares with the machine (set by the stream that builds the machine)
+    pub static LOCKS: std::cell::RefCell<Option<(std::rc::Rc<futures::lock::Mutex<HStorage>>, std::rc::Rc<futures::lock::Mutex<HAppSet>>)>> = std::cell::RefCell::new(None);
+}
+
+/// Called where the machine hands control to the environment for an awaited operation (a policy question, an HTTP exchange,
+/// an installer call): an environment that takes a shared lock there (a policy that looks at the app set, an installer that
+/// writes to storage) would wait for ever if the machine still held it.
+pub fn probe_locks(h: &mut Hub, at: &str) {
+    if h.embedder_lock { return; }
+    LOCKS.with(|l| {
+        if let Some((s, a)) = &*l.borrow() {
+            let sh = s.try_lock().is_none();
+            let ah = a.try_lock().is_none();
+            if sh || ah { h.log(format!("L held storage={} appset={} at {}", sh as u8, ah as u8, at)); }
+        }
+    });
+}
+
 pub struct HPolicy { pub hub: H, pub time: HTime }
 
 impl PolicyEngine for HPolicy {
@@ -354,6 +375,7 @@ impl PolicyEngine for HPolicy {
 
     fn compute_next_update_time<'a>(&'a mut self, apps: &'a [App], scheduling: &'a UpdateCheckSchedule, protocol_state: &'a ProtocolState) -> BoxFuture<'a, CheckTiming> {
         let mut h = self.hub.lock().unwrap();
+        probe_locks(&mut h, "P next");
         let tok = if h.boundary_phase_reboot() { h.env.rnext.pop_front().unwrap_or_else(|| "M0".into()) } else { h.env.next.clone() };
         h.log(format!("P next apps={} {} {} -> {}", apps_tok(apps), sched_tok(scheduling), proto_tok(protocol_state), tok));
         futures::future::ready(parse_timing(&tok)).boxed()
@@ -361,6 +383,7 @@ impl PolicyEngine for HPolicy {
 
     fn update_check_allowed<'a>(&'a mut self, apps: &'a [App], scheduling: &'a UpdateCheckSchedule, protocol_state: &'a ProtocolState, check_options: &'a CheckOptions) -> BoxFuture<'a, CheckDecision> {
         let mut h = self.hub.lock().unwrap();
+        probe_locks(&mut h, "P allowed");
         let tok = h.env.allow.clone();
         h.log(format!("P allowed apps={} {} {} opts={} -> {}", apps_tok(apps), sched_tok(scheduling), proto_tok(protocol_state), src_tok(check_options.source), tok));
         let d = parse_decision(&tok);
@@ -373,6 +396,7 @@ impl PolicyEngine for HPolicy {
 
     fn update_can_start<'a>(&'a mut self, plan: &'a HPlan) -> BoxFuture<'a, UpdateDecision> {
         let mut h = self.hub.lock().unwrap();
+        probe_locks(&mut h, "P canstart");
         let tok = h.env.canstart.clone();
         h.log(format!("P canstart plan={} -> {}", plan.0, tok));
         futures::future::ready(match tok.as_str() { "ok" => UpdateDecision::Ok, "deferred" => UpdateDecision::DeferredByPolicy, _ => UpdateDecision::DeniedByPolicy }).boxed()
@@ -380,6 +404,7 @@ impl PolicyEngine for HPolicy {
 
     fn reboot_allowed<'a>(&'a mut self, check_options: &'a CheckOptions, _r: &'a ()) -> BoxFuture<'a, bool> {
         let mut h = self.hub.lock().unwrap();
+        probe_locks(&mut h, "P rebootallowed");
         let a = h.env.rallow.pop_front().unwrap_or(false);
         h.reboot_phase = true;
         h.log(format!("P rebootallowed opts={} -> {}", src_tok(check_options.source), a));
@@ -388,6 +413,7 @@ impl PolicyEngine for HPolicy {
 
     fn reboot_needed<'a>(&'a mut self, plan: &'a HPlan) -> BoxFuture<'a, bool> {
         let mut h = self.hub.lock().unwrap();
+        probe_locks(&mut h, "P rebootneeded");
         let a = h.env.rebootneeded;
         h.log(format!("P rebootneeded plan={} -> {}", plan.0, a));
         futures::future::ready(a).boxed()
@@ -435,6 +461,7 @@ pub fn wire_summary(body: &[u8], uri: &str, headers: &http::HeaderMap, in_check:
 impl HttpRequest for HHttp {
     fn request(&mut self, req: hyper::Request<hyper::Body>) -> BoxFuture<'_, Result<hyper::Response<Vec<u8>>, HttpError>> {
         let hub = self.0.clone();
+        probe_locks(&mut hub.lock().unwrap(), "H request");
         async move {
             let (parts, body) = req.into_parts();
             let body = hyper::body::to_bytes(body).await.unwrap().to_vec();
@@ -559,6 +586,7 @@ impl Installer for HInstaller {
 
     fn perform_install<'a>(&'a mut self, plan: &'a HPlan, observer: Option<&'a dyn ProgressObserver>) -> LocalBoxFuture<'a, ((), Vec<AppInstallResult<HErr>>)> {
         let hub = self.0.clone();
+        probe_locks(&mut hub.lock().unwrap(), "I install");
         async move {
             let (progress, results, dt) = {
                 let mut h = hub.lock().unwrap();
@@ -587,6 +615,7 @@ impl Installer for HInstaller {
 
     fn perform_reboot(&mut self) -> LocalBoxFuture<'_, Result<(), anyhow::Error>> {
         let mut h = self.0.lock().unwrap();
+        probe_locks(&mut h, "I reboot");
         let ok = h.env.rebootok;
         h.log(format!("I reboot -> {}", if ok { "ok" } else { "err" }));
         futures::future::ready(if ok { Ok(()) } else { Err(anyhow::anyhow!("reboot failed")) }).boxed_local()
@@ -594,6 +623,7 @@ impl Installer for HInstaller {
 
     fn try_create_install_plan<'a>(&'a self, params: &'a RequestParams, meta: Option<&'a RequestMetadata>, _response: &'a Response, response_bytes: Vec<u8>, sig: Option<Vec<u8>>) -> LocalBoxFuture<'a, Result<HPlan, HErr>> {
         let mut h = self.0.lock().unwrap();
+        probe_locks(&mut h, "I plan");
         // the metadata handed over must be what went on the wire for the update check
         let meta_tok = match (meta, &h.last_uc_request) {
             (None, _) => "none".to_string(),
